@@ -731,7 +731,10 @@ impl ElementRaw {
                         false
                     }
                 })
-                .unwrap();
+                .ok_or(AutosarDataError::ElementNotFound {
+                    target: move_element.element_name(),
+                    parent: self.element_name(),
+                })?;
 
             if current_position < position {
                 // the first element in the subslice is moved to the last position by rotate_left
@@ -806,7 +809,10 @@ impl ElementRaw {
                         false
                     }
                 })
-                .unwrap();
+                .ok_or(AutosarDataError::ElementNotFound {
+                    target: move_element.element_name(),
+                    parent: src_parent_locked.element_name(),
+                })?;
             src_parent_locked.content.remove(idx);
         }
 
@@ -919,7 +925,10 @@ impl ElementRaw {
                         false
                     }
                 })
-                .unwrap();
+                .ok_or(AutosarDataError::ElementNotFound {
+                    target: move_element.element_name(),
+                    parent: src_parent_locked.element_name(),
+                })?;
             src_parent_locked.content.remove(idx);
         }
 
